@@ -21,6 +21,18 @@ CLAIMED = {
         note='Trusted: the reference encoder refmodel/wire.py (60 lines, self-tested on the documentation examples), '
              'CrossHair/z3, glue G1-G3. Same structural bound and exclusions as C04.',
         ref='4 (C05)'),
+    'C06': dict(
+        text='Bounded proof by symbolic execution of the real decoder against a three-valued reference validator written '
+             'from the documents: per catalogue type, (a) every document of the valid shape with symbolic leaves (all '
+             'ints, strings <= 2/3 chars) and every subset of optional keys / tag / subtype, (b) every document one '
+             'structural mutation away (wrong kind, dropped/unknown/null key, unknown/non-string/missing/catch-all tag, '
+             'bare-string form, payload dropped/added), strict and lenient: only ValidationError escapes, must-accept is '
+             'accepted, must-reject is rejected, every returned value re-encodes (is valid).',
+        note='Trusted: refmodel/accept.py (reference validator; silent cases are "unspecified" and not judged), CrossHair/z3, '
+             'glue G1-G3, real-number model for ints given to float fields. Large catalogue types are explored one '
+             'top-level field/tag at a time in the quick tier (rest of the document a fixed valid instance). Base64 and '
+             'timestamp text: concrete list + bug-hunting harnesses that can refute but not discharge.',
+        ref='4 (C06)'),
     'C08': dict(
         text='Bounded proof by symbolic execution of the validator classes with symbolic parameters AND symbolic values '
              '(all integers; all binary64 incl. NaN/inf; strings <= 4/6 chars against length bounds and a list of '
@@ -45,7 +57,6 @@ PENDING = {
     'C01': 'check under construction in this session (claimed in DESIGN.md section 4)',
     'C02': 'check under construction in this session (claimed in DESIGN.md section 4)',
     'C03': 'check under construction in this session (claimed in DESIGN.md section 4)',
-    'C06': 'check under construction in this session (claimed in DESIGN.md section 4)',
     'C07': 'check under construction in this session (claimed in DESIGN.md section 4)',
     'C10': 'check under construction in this session (claimed in DESIGN.md section 4)',
     'C11': 'check under construction in this session (claimed in DESIGN.md section 4)',
